@@ -107,6 +107,8 @@ Violations(out, ndigits, allowText) ==
   \cup {"NoXlinkOrForeignAttr" : j \in {j \in Els(out) :
           \E k \in 1..Len(nd(j).at) : nd(j).at[k][3] # ""}}
   \cup {"RootNoInheritableAttr" : x \in {a \in RootForbidden : HasA(nd(1), a)}}
+  \cup {"TextSubtreeOnlyTextTags" : j \in {j \in Els(out) : allowText /\ InText(out, j)
+                                                 /\ ~(nd(j).ns = "svg" /\ nd(j).tag \in TextTags)}}
   \cup {"TextOnlyIfAllowed" : j \in {j \in 1..N(out) : nd(j).k = "text"
                                        /\ ~(allowText /\ InText(out, ParentOf(out, j)))}}
 
